@@ -146,6 +146,9 @@ func selftestDeterminism(args []string) int {
 						}
 					}
 				}
+				if rec != ref && j.flavour == "race" && strings.Contains(ref, `"special":"marathon"`) {
+					continue // marathons are skipped in the race build (they would take half a minute each)
+				}
 				if rec != ref {
 					mismatch++
 					if mismatch < 5 {
